@@ -507,7 +507,9 @@ func (p *parser) parseFieldNode1(flags a.Flags) (*a.Node, error) {
 	if err != nil {
 		return nil, err
 	}
-	if pkg := typ.Innermost().QID()[0]; (pkg != 0) && (pkg != t.IDBase) {
+	if pkg := typ.Innermost().QID()[0]; pkg != t.IDBase {
+		// A struct-typed field, whether the struct is from this package (pkg
+		// is 0) or from a used package, lives in the private_data section.
 		flags |= a.FlagsPrivateData
 	}
 	return a.NewField(flags, name, typ).AsNode(), nil
